@@ -42,7 +42,7 @@ class Impl:
             if k == 'add_node':
                 n = AttackGraphNode(type=op['type'], name=op['name'], ttc=None, asset=self.asset(op.get('asset')))
                 n.is_viable, n.is_necessary = op['viable'], op['necessary']
-                if op['type'] == 'defense' and op.get('defense') is None: n.defense_status = 1.0 if op['defOne'] else 0.5
+                if op['type'] == 'defense' and op.get('defense') is None and not op.get('bare'): n.defense_status = 1.0 if op['defOne'] else 0.5
                 if op['suppress']: n.tags = ['suppress']
                 if 'tags' in op: n.tags = list(op['tags'])
                 if op.get('ttc') is not None: n.ttc = json.loads(op['ttc'])
@@ -266,8 +266,9 @@ def mirror(g):
 # ------------------------------------------------------------------ generation
 class Gen:
     """random history over pools of live / removed handles"""
-    def __init__(self, rnd: random.Random, weights: dict, nmax=8, with_assets=True, rich=False):
+    def __init__(self, rnd: random.Random, weights: dict, nmax=8, with_assets=True, rich=False, bare_defenses=False):
         self.r, self.w, self.nmax, self.with_assets = rnd, weights, nmax, with_assets
+        self.bare_defenses = bare_defenses
         self.rich = rich; self.copied = False; self.saved = None
         self.snames, self.assets_of, self.extras_of, self.ttc_of, self.anames = {}, {}, {}, {}, {}
         self.live_n, self.dead_n, self.live_a, self.dead_a = [], [], [], []
@@ -314,9 +315,12 @@ class Gen:
                                        {'type': 'function', 'name': 'Enabled', 'arguments': []}, {}]))      # ({}: falsy, but not None)
             if t == 'defense':
                 op['defense'] = repr(r.choice([0.0, 1.0, 0.5, 0.25, 1e-05])); op['defOne'] = op['defense'] == '1.0'
+                if self.bare_defenses and r.random() < 0.2:
+                    # a defense whose status was never set (a hand-written file may leave it out): None is a value of its own
+                    del op['defense']; op['bare'] = True; op['defOne'] = False
             if t in ('exist', 'notExist'): op['exist'] = r.random() < 0.5
             if r.random() < 0.3: op['mitre'] = 'T1' + str(r.randint(100, 999))
-            if r.random() < 0.3: op['extras'] = jtxt({'pos': [r.randint(0, 9), r.randint(0, 9)], 'note': 'x', **({'w': 2.5e-07} if r.random() < 0.3 else {}),
+            if r.random() < 0.3: op['extras'] = jtxt({'pos': [r.randint(0, 9), r.randint(0, 9)], 'note': 'x', **({'w': 2.5e-07} if r.random() < 0.3 else {}), **({'2024': 'audited', 'slots': {'7': 1}} if r.random() < 0.25 else {}),
                                                               # free-form metadata may use the words the node's own attributes use
                                                               **({r.choice(['name', 'type', 'id', 'full_name', 'is_viable', 'ttc', 'asset', 'children']): r.choice(['other', 7, False])} if r.random() < 0.3 else {})})
         self.snames = getattr(self, 'snames', {}); self.assets_of = getattr(self, 'assets_of', {})
